@@ -456,3 +456,125 @@ def r12_rename_is_exact(ctx):
 
 
 RULES += [r12_rename_is_exact]
+
+
+def r13_right_operand_never_joined(ctx):
+    ctx.rule("C04.r13", "an inclusion test never replaces (parts of) its RIGHT operand by their join / smashed form: the join of two "
+             "partitions or disjuncts also describes what lies between them, so `left <= join(right parts)` does not imply that the "
+             "left operand is included in the right one (over-approximating the LEFT operand is fine)", floor=30)
+    n = 0
+    seen = set()
+    for f in ctx.db.files():
+        if not f.startswith("include/crab/domains/"):
+            continue
+        for fn in ctx.db.fns(f, name="operator<="):
+            body = fn.get("body")
+            if not body or not fn.get("cpk") or len(fn.get("params", [])) != 1 or fn["pk"] + str(fn["line"]) in seen:
+                continue
+            seen.add(fn["pk"] + str(fn["line"]))
+            decls = local_decls(body)
+            tainted = set()
+            mentions = lambda e: any(isinstance(x, dict) and x.get("k") == "ref" and (is_param(x, fn, 0) or x.get("id") in tainted) for x in walk(e))
+            changed = True
+            while changed:
+                changed = False
+                for d in decls.values():
+                    if d["id"] not in tainted and "i" in d and mentions(d["i"]):
+                        tainted.add(d["id"])
+                        changed = True
+                for d in decls.values():
+                    if d["id"] not in tainted and any(mentions(w) for w in writes_to(body, d["id"])):
+                        tainted.add(d["id"])
+                        changed = True
+            n += 1
+            bad = None
+            for c in walk(body):
+                if c.get("k") != "call":
+                    continue
+                nm = (callee(c) or {}).get("name") or ""
+                isjoin = c.get("op") in ("|", "|=") or nm in ("merge_partitions", "smash", "smash_array", "operator|", "operator|=")
+                if not isjoin:
+                    continue
+                if "ghost" in ((callee(c) or {}).get("cpk") or "").lower():
+                    continue        # renaming of ghost variables, checked by C04.r12
+                recv = c.get("o")
+                operands = ([recv] if recv is not None else []) + list(c.get("a", []))
+                if any(mentions(o) for o in operands):
+                    bad = c
+                    break
+            if bad is not None:
+                ctx.bad("%s::operator<= joins parts of its RIGHT operand (`%s`) before comparing: {x in [0,6]} <= {x in [0,1]} | {x in [5,6]} "
+                        "answers yes although x = 3 is only in the left operand" % (fn["cpk"], src(bad)[:50]), fn, bad,
+                        sig="leq-right-joined:%s" % fn["cpk"].split("::")[-1])
+            else:
+                ctx.ok("%s::operator<= never joins parts of the right operand" % fn["cpk"].split("::")[-1], fn, body)
+    if n == 0:
+        ctx.fail("rule C04.r13: no inclusion test found")
+
+
+RULES += [r13_right_operand_never_joined]
+
+
+def r14_rename_insert_effective(ctx):
+    ctx.rule("C04.r14", "zones rename: `vert_map.insert({new_v, dim})` does not overwrite, so on every path that reaches it the target "
+             "variable has no entry left (not found, or its stale unconstrained vertex was erased); otherwise the renamed vertex is "
+             "reachable by name for printing only and every query sees the target as unconstrained", floor=2)
+    n = 0
+    for f, cpk in (("include/crab/domains/split_dbm.hpp", "crab::domains::split_dbm_domain"),
+                   ("include/crab/domains/sparse_dbm.hpp", "crab::domains::sparse_dbm_domain")):
+        fs = [x for x in ctx.db.fns(f, cpk=cpk, name="rename") if x.get("body")]
+        if not ctx.need(fs, cpk + "::rename"):
+            continue
+        fn = fs[0]
+        body = fn["body"]
+        decls = local_decls(body)
+        loops = [l for l in walk(body) if l.get("k") in ("for", "rangefor") and any(is_call(c, name="insert") and is_field(strip(c.get("o")), "vert_map") for c in walk(l.get("b")))]
+        if not loops:
+            ctx.undecided("%s::rename: the loop that re-inserts the renamed vertex was not found" % cpk, fn, body)
+            continue
+        loop = loops[0]
+        lb = loop.get("b")
+        ins = [c for c in walk(lb) if is_call(c, name="insert") and is_field(strip(c.get("o")), "vert_map")][0]
+        # the target variable = first component of the inserted pair
+        tgt_ids = {x.get("id") for x in walk(ins["a"][0]) if isinstance(x, dict) and x.get("k") == "ref" and x.get("rk") == "local"}
+        def unwrap(e):
+            e = strip_move(e)
+            while isinstance(e, dict) and e.get("k") in ("ctor", "construct") and len(e.get("a", [])) == 1:
+                e = strip_move(e["a"][0])
+            return e
+        finds = {d["id"] for d in walk(lb) if d.get("k") == "decl" and "i" in d and is_call(unwrap(d["i"]), name="find") and
+                 is_field(strip(obj(unwrap(d["i"]))), "vert_map") and
+                 any(isinstance(x, dict) and x.get("k") == "ref" and x.get("id") in tgt_ids for a in unwrap(d["i"]).get("a", []) for x in walk(a))}
+
+        def gen(x):
+            if is_call(x, name="erase") and is_field(strip(x.get("o")), "vert_map") and x.get("a") and \
+                    any(isinstance(y, dict) and y.get("k") == "ref" and (y.get("id") in finds or y.get("id") in tgt_ids) for y in walk(x["a"][0])):
+                return ("gone",)
+            return ()
+
+        def refine(cond, pol):
+            p = cmp_parts(cond)
+            if p and p[0] in ("==", "!=") and any(isinstance(strip(z), dict) and strip(z).get("id") in finds for z in (p[1], p[2])) and \
+                    any(is_call(strip(z), name="end") for z in (p[1], p[2])):
+                notfound = (p[0] == "==") == bool(pol)
+                return ("gone",) if notfound else ()
+            return ()
+        fl = paths.MustEvents(gen, refine=refine)
+        try:
+            fl.run({"k": "seq", "b": [loop]})
+        except paths.Unstructured:
+            ctx.undecided("%s::rename: unstructured control flow" % cpk, fn, loop)
+            continue
+        st = fl.at.get(id(ins))
+        n += 1
+        if st is not None and "gone" in st:
+            ctx.ok("%s::rename: the target has no entry when the renamed vertex is inserted" % cpk.split("::")[-1], fn, ins)
+        else:
+            ctx.bad("%s::rename inserts {new_v, dim} into vert_map while new_v can still have its stale (edge-less) vertex there: the insertion "
+                    "is a no-op, rev_map says the renamed vertex is new_v but vert_map[new_v] is the stale one - z <= 7 renamed to y prints "
+                    "y <= 7 while d[y] is top and entails(y <= 7) is false" % cpk, fn, ins, sig="rename-insert-noop:%s" % cpk.split("::")[-1])
+    if n == 0:
+        ctx.fail("rule C04.r14: nothing decided")
+
+
+RULES += [r14_rename_insert_effective]
